@@ -2,13 +2,21 @@ package assets
 
 // C39 harness (binding F).  Overlaid into internal/server/assets as a _test.go
 // file.  It only DRIVES and PROJECTS:
-//   - builds on disk the fixture printed by the TLA+ spec (AssetRange!Fixture),
-//   - executes every case printed by AssetRange_Gen on the real AssetsHandler,
-//     routed through the real router (Router.ServeHTTP, including its panic
-//     recovery), the request being parsed by net/http from the literal
-//     request line the spec wrote,
-//   - logs [in |-> the case, out |-> status, Content-Range, Content-Length,
-//     body bytes, panicked] for the TLA+ contract to judge,
+//   - builds on disk the fixture printed by the TLA+ spec (AssetRange!Fixture;
+//     small files as bytes, big files in run-length form),
+//   - sequential stage: executes every case printed by AssetRange_Gen on the
+//     real AssetsHandler, routed through the real router (Router.ServeHTTP,
+//     including its panic recovery), the request being parsed by net/http from
+//     the literal request line the spec wrote (VERIF_WIRE=1: behind a real
+//     net/http server on loopback, raw request on a TCP connection),
+//   - concurrent stage (VERIF_IN_CONC, VERIF_CONC): the given cases are issued by
+//     several clients at once against the real server, once per GOMAXPROCS value;
+//     the ResponseWriter handed to AssetsHandler yields the processor at every
+//     call (a legal schedule, no sleeping) so that requests overlap between the
+//     handler's Loader call and its Write,
+//   - logs [stage, in |-> the case, out |-> status, Content-Range, Content-Length,
+//     body (bytes, or canonical run-length form when longer than 256 bytes),
+//     panicked] for the TLA+ contract to judge,
 //   - writes the oracle reps.json: the real minifiers / Markdown renderer
 //     applied to each whole raw file (the contract treats them as given).
 // Nothing here decides whether a response is right.
@@ -23,7 +31,10 @@ import (
 	"net/http/httptest"
 	"os"
 	"path/filepath"
+	"runtime"
+	"strconv"
 	"strings"
+	"sync"
 	"sync/atomic"
 	"testing"
 	"time"
@@ -38,6 +49,8 @@ type c39File struct {
 	P    []string `json:"p"`
 	ID   string   `json:"id"`
 	Kind string   `json:"kind"`
+	Size int      `json:"size"`
+	RLE  [][2]int `json:"rle"`
 }
 
 type c39Out struct {
@@ -54,6 +67,7 @@ type c39Link struct {
 type c39Fixture struct {
 	Raw      map[string][]int `json:"raw"`
 	Files    []c39File        `json:"files"`
+	BigFiles []c39File        `json:"bigfiles"`
 	Dirs     [][]string       `json:"dirs"`
 	OutFiles []c39Out         `json:"outfiles"`
 	Links    []c39Link        `json:"links"`
@@ -75,12 +89,16 @@ type c39Case struct {
 }
 
 type c39Resp struct {
-	Status   int    `json:"status"`
-	CR       string `json:"cr"`
-	CL       string `json:"cl"`
-	Body     []int  `json:"body"`
-	Panicked bool   `json:"panicked"`
+	Status   int      `json:"status"`
+	CR       string   `json:"cr"`
+	CL       string   `json:"cl"`
+	Body     []int    `json:"body"`
+	Big      bool     `json:"big"`
+	RLE      [][2]int `json:"rle"`
+	Panicked bool     `json:"panicked"`
 }
+
+const c39BigBody = 256
 
 func c39Bytes(l []int) []byte {
 	b := make([]byte, len(l))
@@ -96,6 +114,24 @@ func c39Ints(b []byte) []int {
 		l[i] = int(v)
 	}
 	return l
+}
+
+// c39Project: the body as logged (lossless): bytes, or canonical run-length form.
+func c39Project(r *c39Resp, body []byte) {
+	r.Body, r.RLE = []int{}, [][2]int{}
+	if len(body) <= c39BigBody {
+		r.Body = c39Ints(body)
+		return
+	}
+	r.Big = true
+	for i := 0; i < len(body); {
+		j := i
+		for j < len(body) && body[j] == body[i] {
+			j++
+		}
+		r.RLE = append(r.RLE, [2]int{int(body[i]), j - i})
+		i = j
+	}
 }
 
 func c39Build(fx *c39Fixture) (base string, err error) {
@@ -123,6 +159,21 @@ func c39Build(fx *c39Fixture) (base string, err error) {
 			return base, err
 		}
 	}
+	for _, f := range fx.BigFiles {
+		fn := filepath.Join(append([]string{root}, f.P...)...)
+		data := make([]byte, 0, f.Size)
+		for _, run := range f.RLE {
+			for k := 0; k < run[1]; k++ {
+				data = append(data, byte(run[0]))
+			}
+		}
+		if len(data) != f.Size {
+			return base, fmt.Errorf("big file %s: run lengths add up to %d, size says %d", f.ID, len(data), f.Size)
+		}
+		if err = os.WriteFile(fn, data, 0o644); err != nil {
+			return base, err
+		}
+	}
 	for _, o := range fx.OutFiles {
 		fn := filepath.Join(append([]string{out}, o.P...)...)
 		if err = os.WriteFile(fn, c39Bytes(o.Bytes), 0o644); err != nil {
@@ -142,16 +193,18 @@ func c39Build(fx *c39Fixture) (base string, err error) {
 	return base, nil
 }
 
-func TestVerifC39(t *testing.T) {
-	in, outp, repsp := os.Getenv("VERIF_IN"), os.Getenv("VERIF_OUT"), os.Getenv("VERIF_REPS")
-	if in == "" || outp == "" || repsp == "" {
-		t.Skip("VERIF_IN/VERIF_OUT/VERIF_REPS not set")
-	}
-	var (
-		fx    *c39Fixture
-		cases []json.RawMessage
-	)
-	err := vkLoadLines(in, func(b []byte) error {
+// c39Yield gives up the processor at every call the handler makes on its ResponseWriter.
+type c39Yield struct{ http.ResponseWriter }
+
+func (y c39Yield) Header() http.Header { runtime.Gosched(); return y.ResponseWriter.Header() }
+func (y c39Yield) WriteHeader(c int)   { runtime.Gosched(); y.ResponseWriter.WriteHeader(c) }
+func (y c39Yield) Write(b []byte) (int, error) {
+	runtime.Gosched()
+	return y.ResponseWriter.Write(b)
+}
+
+func c39LoadCases(path string) (fx *c39Fixture, cases []json.RawMessage, err error) {
+	err = vkLoadLines(path, func(b []byte) error {
 		var probe struct {
 			Fixture *c39Fixture `json:"fixture"`
 		}
@@ -165,8 +218,23 @@ func TestVerifC39(t *testing.T) {
 		cases = append(cases, json.RawMessage(append([]byte(nil), b...)))
 		return nil
 	})
+	return
+}
+
+func TestVerifC39(t *testing.T) {
+	in, outp, repsp := os.Getenv("VERIF_IN"), os.Getenv("VERIF_OUT"), os.Getenv("VERIF_REPS")
+	if in == "" || outp == "" || repsp == "" {
+		t.Skip("VERIF_IN/VERIF_OUT/VERIF_REPS not set")
+	}
+	fx, cases, err := c39LoadCases(in)
 	if err != nil || fx == nil {
 		t.Fatalf("cannot load cases: %v (fixture present: %v)", err, fx != nil)
+	}
+	var concCases []json.RawMessage
+	if p := os.Getenv("VERIF_IN_CONC"); p != "" {
+		if _, concCases, err = c39LoadCases(p); err != nil {
+			t.Fatalf("cannot load concurrent cases: %v", err)
+		}
 	}
 	base, err := c39Build(fx)
 	if base != "" {
@@ -202,59 +270,78 @@ func TestVerifC39(t *testing.T) {
 		t.Fatal(err)
 	}
 
-	// the two asset routes of internal/commands/routes.go, the handler wrapped only to see a panic leave it
-	var panicked atomic.Bool
+	// the two asset routes of internal/commands/routes.go; the handler is wrapped only to see a panic
+	// leave it (keyed by the X-Verif-Id header the client sent) and, in the concurrent stage, to yield
+	var (
+		panics sync.Map
+		yield  atomic.Bool
+	)
 	wrapped := func(s *router.Session, w http.ResponseWriter, r *http.Request) int {
 		defer func() {
 			if v := recover(); v != nil {
-				panicked.Store(true)
+				panics.Store(r.Header.Get("X-Verif-Id"), true)
 				panic(v)
 			}
 		}()
+		if yield.Load() {
+			w = c39Yield{w}
+		}
 		return AssetsHandler(s, w, r)
 	}
 	mux := router.NewRouter("verif-c39")
 	mux.New(defs.AssetsPath+"{{item...}}", wrapped, http.MethodGet).Class(router.AssetRequestCounter)
 	mux.New(defs.AssetsPath+"{{item...}}", wrapped, http.MethodHead).Class(router.AssetRequestCounter)
 
-	// VERIF_WIRE=1: the same router behind a real net/http server on loopback; the request text is
-	// written to the socket as is and the response is what arrives on the wire.
+	// VERIF_WIRE=1 (and always in the concurrent stage): the same router behind a real net/http server on
+	// loopback; the request text is written to the socket as is and the response is what arrives on the wire.
 	wire := os.Getenv("VERIF_WIRE") == "1"
 	var srv *httptest.Server
-	if wire {
+	if wire || len(concCases) > 0 {
 		srv = httptest.NewServer(mux)
 		defer srv.Close()
 	}
+	var seq int64
+	var seqMu sync.Mutex
+	nextID := func() string {
+		seqMu.Lock()
+		defer seqMu.Unlock()
+		seq++
+		return strconv.FormatInt(seq, 10)
+	}
 
-	do := func(method, url, rng string, hasRange bool) (c39Resp, error) {
+	do := func(onWire bool, method, url, rng string, hasRange bool) (c39Resp, error) {
+		id := nextID()
 		url = strings.ReplaceAll(url, "@OUT@", outAbs)
-		raw := method + " " + url + " HTTP/1.1\r\nHost: verif\r\n"
+		raw := method + " " + url + " HTTP/1.1\r\nHost: verif\r\nX-Verif-Id: " + id + "\r\n"
 		if hasRange {
 			raw += "Range: " + rng + "\r\n"
 		}
-		if wire {
+		if onWire {
 			raw += "Connection: close\r\n"
 		}
 		raw += "\r\n"
-		panicked.Store(false)
-		if wire {
-			conn, err := net.DialTimeout("tcp", srv.Listener.Addr().String(), 10*time.Second)
+		didPanic := func() bool { _, ok := panics.LoadAndDelete(id); return ok }
+		if onWire {
+			conn, err := net.DialTimeout("tcp", srv.Listener.Addr().String(), 20*time.Second)
 			if err != nil {
 				return c39Resp{}, err
 			}
 			defer conn.Close()
-			conn.SetDeadline(time.Now().Add(30 * time.Second))
+			conn.SetDeadline(time.Now().Add(120 * time.Second))
 			if _, err := conn.Write([]byte(raw)); err != nil {
 				return c39Resp{}, err
 			}
 			resp, err := http.ReadResponse(bufio.NewReader(conn), &http.Request{Method: method})
 			if err != nil { // connection dropped without an answer
-				return c39Resp{Status: 0, Body: []int{}, Panicked: panicked.Load()}, nil
+				out := c39Resp{Status: 0, Panicked: didPanic()}
+				c39Project(&out, nil)
+				return out, nil
 			}
 			body, rerr := io.ReadAll(resp.Body)
 			resp.Body.Close()
 			out := c39Resp{Status: resp.StatusCode, CR: resp.Header.Get("Content-Range"), CL: resp.Header.Get("Content-Length"),
-				Body: c39Ints(body), Panicked: panicked.Load()}
+				Panicked: didPanic()}
+			c39Project(&out, body)
 			if rerr != nil { // declared length and bytes on the wire disagree
 				out.CL = "broken:" + rerr.Error()
 			}
@@ -266,17 +353,20 @@ func TestVerifC39(t *testing.T) {
 		}
 		req.RemoteAddr = "127.0.0.1:9"
 		w := httptest.NewRecorder()
+		escaped := false
 		func() {
 			defer func() {
 				if v := recover(); v != nil { // recovery disabled: the panic reaches the server loop
-					panicked.Store(true)
+					escaped = true
 					w.Code = 0
 				}
 			}()
 			mux.ServeHTTP(w, req)
 		}()
-		return c39Resp{Status: w.Code, CR: w.Header().Get("Content-Range"), CL: w.Header().Get("Content-Length"),
-			Body: c39Ints(w.Body.Bytes()), Panicked: panicked.Load()}, nil
+		out := c39Resp{Status: w.Code, CR: w.Header().Get("Content-Range"), CL: w.Header().Get("Content-Length"),
+			Panicked: didPanic() || escaped}
+		c39Project(&out, w.Body.Bytes())
+		return out, nil
 	}
 
 	tw, err := vkNewTrace(outp)
@@ -284,6 +374,8 @@ func TestVerifC39(t *testing.T) {
 		t.Fatal(err)
 	}
 	defer tw.Close()
+
+	// ---- sequential stage: one case at a time on a flushed cache (plus its priming GET)
 	for _, rawCase := range cases {
 		var c c39Case
 		if err := json.Unmarshal(rawCase, &c); err != nil {
@@ -292,14 +384,74 @@ func TestVerifC39(t *testing.T) {
 		FlushAssetCache()
 		settings.SetDefault(defs.JSMinifySetting, fmt.Sprint(c.Min))
 		if c.Prime != "" {
-			if _, err := do("GET", c.Prime, "", false); err != nil {
+			if _, err := do(wire, "GET", c.Prime, "", false); err != nil {
 				t.Fatal(err)
 			}
 		}
-		out, err := do(c.Method, c.Path.URL, c.Range.Text, c.Range.Shape != "none")
+		out, err := do(wire, c.Method, c.Path.URL, c.Range.Text, c.Range.Shape != "none")
 		if err != nil {
 			t.Fatal(err)
 		}
-		tw.Emit(map[string]any{"in": rawCase, "out": out})
+		tw.Emit(map[string]any{"stage": "seq", "in": rawCase, "out": out})
+	}
+
+	// ---- concurrent stage
+	if len(concCases) == 0 {
+		return
+	}
+	clients := vkEnvInt("VERIF_CONC_CLIENTS", 8)
+	parsed := make([]c39Case, len(concCases))
+	for i, rc := range concCases {
+		if err := json.Unmarshal(rc, &parsed[i]); err != nil {
+			t.Fatalf("bad case %s: %v", rc, err)
+		}
+	}
+	old := runtime.GOMAXPROCS(0)
+	defer runtime.GOMAXPROCS(old)
+	yield.Store(true)
+	for _, g := range strings.Split(vkEnv("VERIF_CONC", "1,4"), ",") {
+		gmp, err := strconv.Atoi(strings.TrimSpace(g))
+		if err != nil || gmp < 1 {
+			t.Fatalf("bad VERIF_CONC entry %q", g)
+		}
+		for _, min := range []bool{false, true} {
+			var idx []int
+			for i := range parsed {
+				if parsed[i].Min == min {
+					idx = append(idx, i)
+				}
+			}
+			if len(idx) == 0 {
+				continue
+			}
+			runtime.GOMAXPROCS(gmp)
+			FlushAssetCache()
+			settings.SetDefault(defs.JSMinifySetting, fmt.Sprint(min))
+			outs := make([]c39Resp, len(idx))
+			errs := make([]error, len(idx))
+			work := make(chan int)
+			var wg sync.WaitGroup
+			for c := 0; c < clients; c++ {
+				wg.Add(1)
+				go func() {
+					defer wg.Done()
+					for k := range work {
+						cs := &parsed[idx[k]]
+						outs[k], errs[k] = do(true, cs.Method, cs.Path.URL, cs.Range.Text, cs.Range.Shape != "none")
+					}
+				}()
+			}
+			for k := range idx {
+				work <- k
+			}
+			close(work)
+			wg.Wait()
+			for k := range idx {
+				if errs[k] != nil {
+					t.Fatalf("concurrent stage (GOMAXPROCS=%d): %v", gmp, errs[k])
+				}
+				tw.Emit(map[string]any{"stage": "conc", "gomaxprocs": gmp, "in": concCases[idx[k]], "out": outs[k]})
+			}
+		}
 	}
 }
